@@ -1544,6 +1544,10 @@ def check_c05(model, rep, tier):
     r_legacy_map(model, rep)
     r_option_lookup(model, rep)
     r_doc_sections(model, rep, sorted(DOC_SECTIONS))
+    # "a second write is byte-identical": what a converted document is written as may not depend on the order in which the
+    # legacy file listed things (an unsorted [tree]/variants list is legal) - the order-provenance rule of C08 on the writers
+    from .canonical import r_order
+    r_order(model, rep)
     from .legacy_fp import r_legacy_facts, r_fix_path_conversion, r_legacy_values
     r_legacy_facts(model, rep)
     r_legacy_values(model, rep)
